@@ -176,7 +176,7 @@ def polygon_triangulate(tri_idx, *args):
     return triangles
 
 
-def make_quad_mesh(points, size_u, size_v):
+def make_quad_mesh(points, size_u, size_v, **kwargs):
     """ Generates a mesh of quadrilateral elements.
 
     :param points: list of points
@@ -196,6 +196,7 @@ def make_quad_mesh(points, size_u, size_v):
     vertices = []
     for pt in points:
         vrt = Vertex(*pt, id=vertex_idx)
+        vrt.uv = [float(vertex_idx // size_v) / float(size_u - 1), float(vertex_idx % size_v) / float(size_v - 1)]
         vertices.append(vrt)
         vertex_idx += 1
 
